@@ -495,6 +495,15 @@ func Payload(r *core.Rand, kind string, n int) []byte {
 			}
 			b = append(b, s...)
 		}
+	case "rep":
+		// a 61-byte pattern repeated: n bytes that compress to a few KiB per tens of MiB
+		pat := make([]byte, 61)
+		for i := range pat {
+			pat[i] = byte('!' + r.Intn(90))
+		}
+		b = make([]byte, n)
+		for i := 0; i < n; i += copy(b[i:], pat) {
+		}
 	case "zero":
 		b = make([]byte, n)
 	default: // bin
